@@ -47,8 +47,21 @@ def confirm(d, run_tests=True):
             t0 = time.time()
             rt = sh(f"cd {wt} && {PYT} -m pytest -q -p no:cacheprovider --timeout=900 tests", env=env)
             last = [l for l in rt.stdout.splitlines() if "passed" in l or "failed" in l or "error" in l]
+            failed = [l for l in rt.stdout.splitlines() if l.startswith("FAILED")]
             out["tests_with_patch"] = {"exit": rt.returncode, "summary": last[-1] if last else rt.stdout[-300:],
-                                       "wall_s": round(time.time() - t0)}
+                                       "failed": failed, "wall_s": round(time.time() - t0)}
+            if rt.returncode != 0 and failed:
+                # the suite's t-tests are unseeded (p = 0.001 each): rerun only the failed ones,
+                # three times, to tell a flake from a real failure
+                ids = " ".join(l.split()[1] for l in failed)
+                again = []
+                for _ in range(3):
+                    r2 = sh(f"cd {wt} && {PYT} -m pytest -q -p no:cacheprovider --timeout=900 {ids}", env=env)
+                    again.append(r2.returncode)
+                out["tests_with_patch"]["rerun_of_failed_x3"] = again
+                if all(c == 0 for c in again):
+                    out["tests_with_patch"]["exit"] = 0
+                    out["tests_with_patch"]["note"] = "failed once, passed 3/3 on rerun: unseeded t-test flake"
         out["ok"] = (out["demo_without_patch"]["exit"] == 0 and out["demo_with_patch"]["exit"] != 0
                      and (not run_tests or out["tests_with_patch"]["exit"] == 0))
     finally:
